@@ -27,7 +27,9 @@ source). `create` is judged like `write` except on the root itself.
 4. a child of the root whose name starts with `.` is bookkeeping: one that existed before the call (the fixture knows its
    owner) may be accessed only by an operation addressed to that owner; one that did not exist may be created and removed
    freely (temporary files, fresh uploads), but may be *probed* only if its name is one the operation's own object / upload
-   spells (`ownNames`), or a temporary file's.
+   spells (`ownNames`), or a temporary file's. The record `.upload-<id>.json` of an upload that is bound to ANOTHER bucket or
+   key than the operation's (`Scope.probeUploads`) may be `read` — that is how the operation learns that it must answer
+   NoSuchUpload — and nothing else of that upload may be read, listed or changed.
 
 **While the backend is constructed** (`judgeSysNew`): resolving the configured root to its canonical location looks at every
 ancestor directory (`read` of the root's ancestors and of the root — rule `canonicalize-root`); the start-up clean-up enumerates
@@ -107,7 +109,10 @@ def judgeSys (cx : SysCtx) (sc : Scope) (k : SysKind) (path : Bytes) : Option St
       else if rdirs.contains name then (if k.readOnly then none else some otherBucket)
       else if name.head? = some 46 then
         match cx.fixture name with
-        | some l => if (if k.readOnly then labelOwnedR sc l else labelOwnedW sc l) then none else some otherBook
+        | some l =>
+          if (if k.readOnly then labelOwnedR sc l else labelOwnedW sc l) then none
+          else if k = .read && sc.probeUploads.any (fun u => name = sUploadDash ++ u ++ sDotJson) then none
+          else some otherBook
         | none =>
           if !k.readOnly then none
           else if (ownNames cx sc false).contains name || ownPartName sc name || isTmpName name then none
